@@ -680,12 +680,9 @@ fn read_chain_inner(
                     mo[i] = mo[i].min(cur_len);
                 }
                 if let Some(need) = c.need {
-                    if used != need[i] {
-                        return Err(Fail {
-                            clause: "scratch-remainder",
-                            detail: format!("message {i} used {used} scratch bytes; with a large scratch the same message used {}", need[i]),
-                        });
-                    }
+                    // (no clause "consumption is the same whatever was offered": for a message
+                    // that may legitimately use scratch for floats or chars the statement does
+                    // not fix how much; the strict rule above covers the messages it does)
                     if cur_len == need[i] {
                         out.probe(p::SCRATCH_EXACT);
                         if cur_len == 0 {
